@@ -261,6 +261,30 @@ pub fn run(ctx: &Ctx) -> i32 {
         gen::for_shard(&fams, shard, n, |case| check_case(case, ev));
     });
     let mut ev = ev;
+    // the containers made by Default are empty maps/sets like any other
+    {
+        ev.eval(Some(0xdefa));
+        ev.count("front:Default");
+        let r = guard(|| -> Result<(), String> {
+            let m: Map<Vec<u8>> = Map::default();
+            let s: Set<Vec<u8>> = Set::default();
+            let empty: Kv = vec![];
+            check_enumeration(m.as_fst().as_bytes(), &empty, true, 0).map_err(|e| format!("Map::default(): {}", e))?;
+            check_enumeration(s.as_fst().as_bytes(), &empty, true, 0).map_err(|e| format!("Set::default(): {}", e))?;
+            if m.len() != 0 || !m.is_empty() || m.stream().next().is_some() || m.get("").is_some() || m.contains_key("") {
+                return Err("Map::default() is not an empty map".into());
+            }
+            if s.len() != 0 || !s.is_empty() || s.stream().next().is_some() || s.contains("") {
+                return Err("Set::default() is not an empty set".into());
+            }
+            Ok(())
+        });
+        match r {
+            Ok(Ok(())) => {}
+            Ok(Err(e)) => ev.violate("roundtrip-mismatch", e, J::s("Default")),
+            Err(p) => ev.violate("enumerate-panic", format!("Default containers: {}", p), J::s("Default")),
+        }
+    }
     if ctx.tier == crate::ctx::Tier::Thorough && std::env::var_os("VERIF_SKIP_4GIB").is_none() {
         huge_4gib(ctx, &mut ev);
     }
